@@ -133,6 +133,11 @@ class Repartition(Expr):
         ):
             return self._filter_simplification(parent)
         if isinstance(parent, Projection):
+            if getattr(self, "partition_size", None) is not None:
+                # The partitions are cut by memory usage, which depends on the
+                # columns: a projected copy would be partitioned differently
+                # from the frame it is combined with (e.g. df[df.a > 1])
+                return
             return plain_column_projection(self, parent, dependents)
 
     @functools.cached_property
